@@ -379,10 +379,14 @@ def run_patchset(env, rng, ws, wsfile):
     import pyhf
 
     doc, kinds = c17.gen_patchset(rng, ws)
-    # make sure the patched workspace stays a valid workspace for apply
+    # one more patch whose result is NOT a valid workspace (a sample name that is a number): the library refuses to
+    # return it, so must the command line
+    nlab = len(doc["metadata"]["labels"])
+    doc["patches"].append({"metadata": {"name": "breaks_the_schema", "values": [-999.5] * nlab},
+                           "patch": [{"op": "replace", "path": "/channels/0/samples/0/name", "value": 123}]})
     psfile = env.write(f"ps_{env.n}.json", doc)
     names = [p["metadata"]["name"] for p in doc["patches"]]
-    name = rng.choice(names)
+    name = rng.choice(names[:-1])
     withmd = rng.random() < 0.5
     outfile = env.path(f"extract_{env.n}.json") if rng.random() < 0.5 else None
     args = ["patchset", "extract", psfile, "--name", name] + (["--with-metadata"] if withmd else []) + (["--output-file", outfile] if outfile else [])
@@ -400,6 +404,9 @@ def run_patchset(env, rng, ws, wsfile):
     outfile = env.path(f"apply_{env.n}.json") if rng.random() < 0.5 else None
     args = ["patchset", "apply", wsfile, psfile, "--name", name] + (["--output-file", outfile] if outfile else [])
     env.judge("patchset", args, None, lambda: dict(pyhf.PatchSet(copy.deepcopy(doc)).apply(pyhf.Workspace(ws), name)), outfile=outfile, nondefault=1)
+    bfile = env.path(f"apply_broken_{env.n}.json") if rng.random() < 0.5 else None
+    env.judge("patchset", ["patchset", "apply", wsfile, psfile, "--name", "breaks_the_schema"] + (["--output-file", bfile] if bfile else []), None,
+              lambda: dict(pyhf.PatchSet(copy.deepcopy(doc)).apply(pyhf.Workspace(ws), "breaks_the_schema")), outfile=bfile)
     env.judge("patchset", ["patchset", "verify", wsfile, psfile], None, lambda: (pyhf.PatchSet(copy.deepcopy(doc)).verify(pyhf.Workspace(ws)), "All good.")[1], parse=lambda t: t.strip(), text=True, compare=lambda a, b: a == b)
     bad = copy.deepcopy(ws)
     bad["channels"][0]["samples"][0]["data"][0] += 1.0
